@@ -99,6 +99,14 @@ def combinationsNat {α} : List α → Nat → List (List α)
   | a :: l, r + 1 => (combinationsNat l r).map (a :: ·) ++ combinationsNat l (r + 1)
 def combinations {α} (l : List α) (r : Int) : List (List α) := if r < 0 then [] else combinationsNat l r.toNat
 
+/-- `itertools.groupby(strings, key=len)`: maximal runs of consecutive strings of equal length, with that length -/
+def groupbyLen : List (List Char) → List (Int × List (List Char))
+  | [] => []
+  | a :: l =>
+    match groupbyLen l with
+    | (n, g) :: rest => if n == Int.ofNat a.length then (n, a :: g) :: rest else (Int.ofNat a.length, [a]) :: (n, g) :: rest
+    | [] => [(Int.ofNat a.length, [a])]
+
 /-- `functools.reduce(f, xs)` without initial value -/
 def reduce {α} (f : α → α → α) : List α → M α
   | [] => throw "TypeError"
